@@ -138,7 +138,7 @@ func checkC20(c *Ctx) {
 				wrc, rnc := wrL.call.(*ssa.Call), rnL.call.(*ssa.Call)
 				g1 := guardedDeep(wrL, Atom{"(" + orderEq(pathOf(ms)+"#1", "nil") + ")", true})
 				data := wrL.toRoot(pathOf(wrc.Call.Args[1]))
-				r.Check(g1 && strings.HasSuffix(pathOf(ms.Call.Args[0]), ".config") && strings.HasPrefix(data, pathOf(ms)+"#0"), "C20.2", "saveClientConf: writes the marshalled config only after Marshal succeeded", wrc.Pos(), fnName(f), "guarded by Marshal err == nil; data derives from Marshal(a.config)",
+				r.Check(g1 && marshalsLiveConfig(f, ms) && strings.HasPrefix(data, pathOf(ms)+"#0"), "C20.2", "saveClientConf: writes the marshalled config only after Marshal succeeded", wrc.Pos(), fnName(f), "guarded by Marshal err == nil; data derives from Marshal(a.config)",
 					"the temporary file can be written although marshalling failed (or with other data): a truncated/foreign file is then renamed over the ClientConf")
 				g2 := guarded(h, rnc, Atom{"(" + orderEq(pathOf(wrc), "nil") + ")", true})
 				r.Check(g2, "C20.2", "saveClientConf: Rename only after the write succeeded", rnc.Pos(), fnName(f), "guarded by WriteFile err == nil",
@@ -165,7 +165,7 @@ func checkC20(c *Ctx) {
 			r.Unk("C20.2", "saveClientConf: Marshal, WriteFile, Rename", f.Pos(), fnName(f), "expected calls not found")
 		} else {
 			g1 := guarded(f, wr, Atom{"(" + orderEq(pathOf(ms)+"#1", "nil") + ")", true})
-			r.Check(g1 && strings.HasSuffix(pathOf(ms.Call.Args[0]), ".config") && dependsOn(wr.Call.Args[1], ms), "C20.2", "saveClientConf: writes the marshalled config only after Marshal succeeded", wr.Pos(), fnName(f), "guarded by Marshal err == nil; data derives from Marshal(a.config)",
+			r.Check(g1 && marshalsLiveConfig(f, ms) && dependsOn(wr.Call.Args[1], ms), "C20.2", "saveClientConf: writes the marshalled config only after Marshal succeeded", wr.Pos(), fnName(f), "guarded by Marshal err == nil; data derives from Marshal(a.config)",
 				"the temporary file can be written although marshalling failed (or with other data): a truncated/foreign file is then renamed over the ClientConf")
 			g2 := guarded(f, rn, Atom{"(" + orderEq(pathOf(wr), "nil") + ")", true})
 			r.Check(g2, "C20.2", "saveClientConf: Rename only after the write succeeded", rn.Pos(), fnName(f), "guarded by WriteFile err == nil",
@@ -265,7 +265,11 @@ func checkC20(c *Ctx) {
 					}
 					if ld, isLd := v.(*ssa.UnOp); isLd && ld.Op == token.MUL {
 						if o, fld, okf := fieldOwner(ld.X); okf && o == "assets.assets" && fld == "config" {
-							inPlace = calleeName(ci.Common())
+							// only callees that can write into the message: the protobuf library's mutators and decoders
+							// (a repository function that is handed the message to marshal it reads it)
+							if cn := calleeName(ci.Common()); strings.HasPrefix(cn, "google.golang.org/protobuf/") && !strings.HasSuffix(cn, "proto.Marshal") && !strings.HasSuffix(cn, "proto.Size") && !strings.HasSuffix(cn, "proto.Equal") && !strings.HasSuffix(cn, "proto.Clone") {
+								inPlace = cn
+							}
 						}
 					}
 				}
@@ -660,4 +664,37 @@ func dependsOnNoPhi(v, ev ssa.Value) bool {
 		}
 	}
 	return false
+}
+
+
+// marshalsLiveConfig: the message handed to proto.Marshal is the in-memory configuration - `a.config` itself, or a
+// parameter of the save function to which every caller passes its `.config`.
+func marshalsLiveConfig(f *ssa.Function, ms *ssa.Call) bool {
+	arg := ms.Call.Args[0]
+	if mi, ok := arg.(*ssa.MakeInterface); ok {
+		arg = mi.X
+	}
+	if strings.HasSuffix(pathOf(arg), ".config") {
+		return true
+	}
+	prm, ok := arg.(*ssa.Parameter)
+	if !ok {
+		return false
+	}
+	idx := -1
+	for i, p := range f.Params {
+		if p == prm {
+			idx = i
+		}
+	}
+	sites, asValue := callersOf(f)
+	if idx < 0 || asValue || len(sites) == 0 {
+		return false
+	}
+	for _, s := range sites {
+		if idx >= len(s.Call.Args) || !strings.HasSuffix(pathOf(s.Call.Args[idx]), ".config") {
+			return false
+		}
+	}
+	return true
 }
